@@ -129,6 +129,14 @@ func TestVerifRecC04Vec(t *testing.T) {
 			nv := newFieldElement2625x4(&f0, &f1, &f2, &f3)
 			e2["out"] = vlanes(&nv)
 			w.emit(e2)
+			// Split of an UNREDUCED vector (limbs with bit excess, as after a lazy negation or a sum) and the way back
+			var g0, g1, g2, g3 field.Element
+			a.Split(&g0, &g1, &g2, &g3)
+			e3 := ev("vsplit")
+			e3["a"], e3["fe"] = vlanes(&a), [][]int{vfe(&g0), vfe(&g1), vfe(&g2), vfe(&g3)}
+			nv2 := newFieldElement2625x4(&g0, &g1, &g2, &g3)
+			e3["out"] = vlanes(&nv2)
+			w.emit(e3)
 		}
 	}
 }
